@@ -29,10 +29,11 @@ func init() {
 }
 
 type c06Params struct {
-	Bound       int `json:"bound"` // hand-written and generated projects
-	CorpusBound int `json:"corpus_bound"`
-	ModelBudget int `json:"model_budget"`
-	MaxExec     int `json:"max_exec_per_project"`
+	Bound        int `json:"bound"` // hand-written and generated projects
+	CorpusBound  int `json:"corpus_bound"`
+	ModelBudget  int `json:"model_budget"`
+	MaxExec      int `json:"max_exec_per_project"`
+	SchedMaxExec int `json:"sched_max_exec_per_project_without_threads"`
 }
 
 // hand-written projects in which several candidates compete for "the first one found"
@@ -390,7 +391,7 @@ func workC06Sched(w *run.W) {
 	dir := workerDir(w)
 	defer os.RemoveAll(dir)
 	for i, pr := range c06ProjectList(p.ModelBudget, dir) {
-		if !w.Mine(int64(i)) || !w.Begin("sched:" + pr.name) {
+		if !w.Mine(int64(i)) || !w.Begin("sched:"+pr.name) {
 			continue
 		}
 		base := c06SchedRun(pr.build, nil)
@@ -422,14 +423,20 @@ func workC06Sched(w *run.W) {
 			return true
 		}
 		judge(base, nil)
+		// a sequential build has choice points too (which pooled object a Get returns): deviations <= bound, and a small
+		// cap per project — the full bound+1 is spent only on projects in which the library starts threads
+		bound, maxExec := p.Bound, p.SchedMaxExec
+		if base.spawned > 0 {
+			bound, maxExec = p.Bound+1, p.MaxExec
+		}
 		var rec func(x c06SchedExec, prefix []int, cost int)
 		rec = func(x c06SchedExec, prefix []int, cost int) {
 			for i := len(prefix); i < len(x.points); i++ {
-				if cost+1 > p.Bound+1 {
+				if cost+1 > bound {
 					continue
 				}
 				for alt := 1; alt < x.points[i].Arity; alt++ {
-					if p.MaxExec > 0 && execs >= p.MaxExec {
+					if maxExec > 0 && execs >= maxExec {
 						capped = true
 						return
 					}
@@ -486,7 +493,7 @@ func runC06(c *chk.Ctx) {
 	}
 	c.Cov["map_range_sites_rewritten"] = sites()
 	c.Cov["files_rewritten"] = nfiles
-	p := c06Params{Bound: chk.Pick(c, 1, 2), CorpusBound: 1, ModelBudget: chk.Pick(c, 2, 3), MaxExec: chk.Pick(c, 400, 20000)}
+	p := c06Params{Bound: chk.Pick(c, 1, 2), CorpusBound: 1, ModelBudget: chk.Pick(c, 2, 3), MaxExec: chk.Pick(c, 400, 20000), SchedMaxExec: chk.Pick(c, 60, 400)}
 	pool := *c.Pool
 	pool.Exe = exe
 	r := pool.Run("c06", p)
